@@ -11,13 +11,13 @@ def correspond(ctx, fam, cases, shards=None, variant="default", canon=vlib.canon
     shards = max(1, min(shards, len(cases)))
     cmd = ["sh", "-c", "ulimit -s unlimited 2>/dev/null || ulimit -s 1000000; exec %s %s"
            % (os.path.join(vlib.BUILD, "ocaml", "model"), fam)]
-    m = vlib._run_sharded(cmd, cases, timeout, shards=shards)
+    m = vlib._run_sharded(cmd, cases, timeout, shards=shards, on_timeout="skip model-shard-timeout")
     i = vlib.run_impl(fam, cases, variant)
     dis = []
     skipped = 0
     for c, a, b in zip(cases, m, i):
         ctx.evaluations += 1
-        if a is not None and skip(a):
+        if a is not None and (a.startswith("skip model-") or skip(a)):   # model gave up on the line (time limit): not evaluated
             skipped += 1
             continue
         if c not in ctx.distinct:
